@@ -194,6 +194,13 @@ where
                 .collect::<Vec<_>>();
             guard.defuse();
 
+            if buffer.len() < n {
+                // the wrapped iterator returned None: it is consumed.
+                // Waiting threads must not rely on the counters to learn this:
+                // with a huge chunk size the counters may have wrapped around.
+                self.completed.store(true, atomic::Ordering::SeqCst);
+            }
+
             match buffer.len() {
                 0 => {
                     self.completed.store(true, atomic::Ordering::SeqCst);
